@@ -280,6 +280,8 @@ def axis(ctx, R):
             R.check(okr, "C07.RANGE-AXIS", tag + "|range", where(f), "scale.range([0, %s])" % L, "init_axis sets the scale's range with %s, expected [0, %s] (the inner %s)" % (rngs, L, "height" if d in ("left", "right") else "width"))
             # order: domain before nice; nothing shrinks the domain afterwards
             names = [c[0] for c in calls]
+            if explicit:
+                R.check("nice" not in names, "C07.DOMAIN", tag + "|explicit domain kept", where(f), "an explicit domain is used as given", "with an explicit domain init_axis also calls scale.nice(): the given domain is widened, so it no longer maps onto the full axis")
             R.check(set(names) <= {"domain", "nice", "range"} and (names.index("domain") < names.index("nice") if "nice" in names else True), "C07.DOMAIN", tag + "|sequence", where(f), "scale calls: %s" % names, "init_axis calls %s on the scale" % names, nontrivial=False)
         # the drawn axis has the same length, both back-ends (C09.AXIS compares them with each other)
         ps = emit.pipe(ctx, SVG, d, n=2)
